@@ -6,4 +6,5 @@ CONSTANTS
   Export = TRUE
   Inner = TRUE
 INVARIANT Inv
+INVARIANT TripleInv
 CHECK_DEADLOCK FALSE
